@@ -382,7 +382,10 @@ func statusOf(o *Obligation) string {
 // tree (C06: protocol, guarded reads/writes, read-modify-write atomicity, no in-place append into
 // shared memory without the write lock). They are claimed also in code the baseline does not cover.
 func universalKind(name string) bool {
-	return strings.Contains(name, "#frame.input") || strings.Contains(name, "#lock")
+	// #frame[k]: a heap store outside the assigns clause of the function under verification (raised
+	// under the name of a helper when the store sits in one that is executed in place): callers rely
+	// on that clause, so it is claimed wherever the store is
+	return strings.Contains(name, "#frame.input") || strings.Contains(name, "#lock") || strings.Contains(name, "#frame[")
 }
 
 // loadFactor is max(1, 1-minute load average / cores), capped at 6.
